@@ -606,74 +606,218 @@ func c20Frontmatters(cfg Config, r *Result, model *c20Model, keys []c20Keys, dir
 		for j := range ops {
 			ops[j] = opsPool[cfg.Rng.Intn(len(opsPool))]
 		}
-		content := c20Frontmatter("text", answer, "none") + c20SimpleBody
-		file, err := c20WriteQuestion(dir, fmt.Sprintf("fm%d", i), content)
-		input := map[string]any{"kind": "fmops", "markdown": content, "ops": ops, "public": keys[ki].KP.Public, "private": keys[ki].KP.Private}
-		if err != nil {
-			r.Violate(Violation{Kind: "correspondence", Key: "harness-io", Detail: err.Error()})
+		want, ok := c20FmOps(r, model, dir, fmt.Sprintf("fm%d", i), "fmops", answer, ops, keys[ki].KP, keys[(ki+1)%len(keys)].KP.Private)
+		if !ok {
 			return
-		}
-		m, err := learn.NewQuestionModel(file)
-		if err != nil || m.Frontmatter.Answer != answer {
-			r.Violate(Violation{Kind: "correspondence", Key: "harness-yaml-answer-differs", Detail: fmt.Sprintf("front matter did not parse to the intended answer: %v", err), Input: input})
-			continue
-		}
-		opsx := make([]SX, len(ops))
-		var impl []string
-		wrong := keys[(ki+1)%len(keys)].KP.Private
-		sealedPlain := "" // the plaintext of what is currently in sealed-answer
-		for j, op := range ops {
-			opsx[j] = Sym(op)
-			var e error
-			a0, s0 := m.Frontmatter.Answer, m.Frontmatter.SealedAnswer
-			switch op {
-			case "seal":
-				e = m.Frontmatter.Seal(keys[ki].KP.Public)
-			case "unseal":
-				e = m.Frontmatter.Unseal(keys[ki].KP.Private)
-			case "unseal-wrong":
-				e = m.Frontmatter.Unseal(wrong)
-			case "set-answer": // a hand edit: may produce the invalid state with both fields set
-				m.Frontmatter.Answer = "zz"
-			default:
-				e = m.Frontmatter.Unseal("")
-			}
-			a, s := m.Frontmatter.Answer, m.Frontmatter.SealedAnswer
-			impl = append(impl, Lst(Sym(c20FmClass(e)), Str(a), Bool(s != "")).String())
-			if op == "set-answer" {
-				continue
-			}
-			// property oracle on the implementation
-			if e != nil && (a != a0 || s != s0) {
-				r.Violate(Violation{Kind: "property", Key: "frontmatter-changed-by-failed-op", Detail: "a failed " + op + " changed the front matter", Input: input})
-			}
-			if e == nil && a != "" && s != "" {
-				r.Violate(Violation{Kind: "property", Key: "frontmatter-both-fields-set", Detail: "answer and sealed-answer are both set after a successful " + op, Input: input})
-			}
-			if e == nil && op == "seal" {
-				if a != "" || s == "" {
-					r.Violate(Violation{Kind: "property", Key: "frontmatter-seal-state", Detail: "after a successful Seal the answer must be empty and the sealed answer set", Input: input})
-				}
-				if a0 != "" {
-					sealedPlain = a0
-				}
-			}
-			if e == nil && op != "seal" && s0 != "" && a != sealedPlain {
-				r.Violate(Violation{Kind: "property", Key: "frontmatter-unseal-differs", Detail: "the unsealed answer is not the answer that was sealed", Input: input, Impl: a})
-			}
-		}
-		ans, merr := model.Ask(Lst(Sym("fmops"), Str(answer), LstOf(opsx)).String())
-		want := "(" + strings.Join(impl, " ") + ")"
-		r.Count("fm/"+answer+"/"+strings.Join(ops, ","), nops >= 2)
-		r.Dist(fmt.Sprintf("fmops:len%d", nops))
-		r.Validated++
-		if merr != nil || ans != want {
-			r.Violate(Violation{Kind: "correspondence", Key: "frontmatter-statemachine-differs", Detail: "Seal/Unseal sequence: implementation and model disagree", Input: input, Impl: want, Model: ans})
 		}
 		if i == 1 {
 			r.Sample(map[string]any{"ops": ops, "answer": answer, "observed": want})
 		}
 	}
+	c20AuthoredAnswers(cfg, r, model, keys, dir)
+}
+
+// c20FmOps runs one Seal/Unseal operation sequence on the front matter of a text question whose
+// answer is `answer`: property oracles on the implementation + comparison with the model's state machine.
+// ok=false: the harness could not write the file (the caller stops).
+func c20FmOps(r *Result, model *c20Model, dir, name, kind, answer string, ops []string, kp learn.KeyPair, wrong string) (want string, ok bool) {
+	nops := len(ops)
+	content := c20Frontmatter("text", answer, "none") + c20SimpleBody
+	file, err := c20WriteQuestion(dir, name, content)
+	input := map[string]any{"kind": kind, "markdown": content, "answer": answer, "ops": ops, "public": kp.Public, "private": kp.Private, "wrong_private": wrong}
+	if err != nil {
+		r.Violate(Violation{Kind: "correspondence", Key: "harness-io", Detail: err.Error()})
+		return "", false
+	}
+	m, err := learn.NewQuestionModel(file)
+	if err != nil || m.Frontmatter.Answer != answer {
+		r.Violate(Violation{Kind: "correspondence", Key: "harness-yaml-answer-differs", Detail: fmt.Sprintf("front matter did not parse to the intended answer: %v", err), Input: input})
+		return "", true
+	}
+	opsx := make([]SX, len(ops))
+	var impl []string
+	sealedPlain := "" // the plaintext of what is currently in sealed-answer
+	for j, op := range ops {
+		opsx[j] = Sym(op)
+		var e error
+		a0, s0 := m.Frontmatter.Answer, m.Frontmatter.SealedAnswer
+		switch op {
+		case "seal":
+			e = m.Frontmatter.Seal(kp.Public)
+		case "unseal":
+			e = m.Frontmatter.Unseal(kp.Private)
+		case "unseal-wrong":
+			e = m.Frontmatter.Unseal(wrong)
+		case "set-answer": // a hand edit: may produce the invalid state with both fields set
+			m.Frontmatter.Answer = "zz"
+		default:
+			e = m.Frontmatter.Unseal("")
+		}
+		a, s := m.Frontmatter.Answer, m.Frontmatter.SealedAnswer
+		impl = append(impl, Lst(Sym(c20FmClass(e)), Str(a), Bool(s != "")).String())
+		if op == "set-answer" {
+			continue
+		}
+		// property oracle on the implementation
+		if e != nil && (a != a0 || s != s0) {
+			r.Violate(Violation{Kind: "property", Key: "frontmatter-changed-by-failed-op", Detail: "a failed " + op + " changed the front matter", Input: input})
+		}
+		if e == nil && a != "" && s != "" {
+			r.Violate(Violation{Kind: "property", Key: "frontmatter-both-fields-set", Detail: "answer and sealed-answer are both set after a successful " + op, Input: input})
+		}
+		if e == nil && op == "seal" {
+			if a != "" || s == "" {
+				r.Violate(Violation{Kind: "property", Key: "frontmatter-seal-state", Detail: "after a successful Seal the answer must be empty and the sealed answer set", Input: input})
+			}
+			if a0 != "" {
+				sealedPlain = a0
+				// what was sealed is the answer itself: the sealed value opens to it
+				if p, derr := c20Decrypt(kp.Private, s); derr != nil || p != a0 {
+					r.Violate(Violation{Kind: "property", Key: "frontmatter-sealed-value-differs", Detail: fmt.Sprintf("Decrypt(private, sealed-answer) after Seal is not the answer that was sealed (error: %v)", derr), Input: input, Impl: p})
+				}
+			}
+		}
+		if e == nil && op != "seal" && s0 != "" && a != sealedPlain {
+			r.Violate(Violation{Kind: "property", Key: "frontmatter-unseal-differs", Detail: "the unsealed answer is not the answer that was sealed", Input: input, Impl: a})
+		}
+	}
+	ans, merr := model.Ask(Lst(Sym("fmops"), Str(answer), LstOf(opsx)).String())
+	want = "(" + strings.Join(impl, " ") + ")"
+	r.Count("fm/"+answer+"/"+strings.Join(ops, ","), nops >= 2)
+	r.Dist(fmt.Sprintf("%s:len%d", kind, nops))
+	r.Validated++
+	if merr != nil || ans != want {
+		r.Violate(Violation{Kind: "correspondence", Key: "frontmatter-statemachine-differs", Detail: "Seal/Unseal sequence: implementation and model disagree", Input: input, Impl: want, Model: ans})
+	}
+	return want, true
+}
+
+// ---------- part B': answers as authors write them ----------
+
+// Answer texts of text / program questions are evy source or program output: several lines, comments at
+// line ends, the authoring tags the learn package itself interprets when it RENDERS an answer
+// (` //levy:blank`, see removeCommentTags / removeTaggedPrint / removeCommentTaggedLines), white space at
+// line ends and around the whole text.  Sealing must not interpret any of it.
+var c20AnsLines = []string{`print "One, two,"`, `print "bugs, shoo."`, "x := 1", "print x", "move 10 10", "circle 5", "hi", "42", "a b",
+	"héllo wörld", "🐜🐛", "", "if x > 1", "    print \"deep\"", "\tprint 2", "end", "// only a comment", "a, c", "print", "//levy:blank", "levy:blank", "- item", "key: value", "'q'", "# h"}
+
+var c20AnsSuffixes = []string{"", "", "", " //levy:blank", " //levy:blank", " //levy:blank", "//levy:blank", " // levy:blank", " //levy:blank ", "  //levy:blank",
+	"\t//levy:blank", " //levy:blank //levy:blank", " //levy:Blank", " //levy:blanks", " //levy:", " //levy:hide", " //evy:blank", " // comment", " //", " #tag",
+	" ", "  ", "\t", "\r", " \r", "\u00a0", " <!-- x -->", " \\", ":", " //levy:blank\r", " // 🐜 //levy:blank"}
+
+var c20AnsEdges = []string{"", "", "", "", "\n", " ", "\n\n", "\t", " \n", "\r\n"}
+
+func c20AuthoredAnswer(rng *rand.Rand) string {
+	n := 1 + rng.Intn(5)
+	sep := "\n"
+	if rng.Intn(8) == 0 {
+		sep = "\r\n"
+	}
+	lines := make([]string, n)
+	for i := range lines {
+		lines[i] = c20AnsLines[rng.Intn(len(c20AnsLines))] + c20AnsSuffixes[rng.Intn(len(c20AnsSuffixes))]
+	}
+	s := c20AnsEdges[rng.Intn(len(c20AnsEdges))] + strings.Join(lines, sep) + c20AnsEdges[rng.Intn(len(c20AnsEdges))]
+	if s == "" {
+		s = "x //levy:blank"
+	}
+	return s
+}
+
+func c20AnswerFamily(a string) string {
+	var f []string
+	if strings.Contains(a, "\n") {
+		f = append(f, "multi-line")
+	}
+	if strings.Contains(a, "levy:") {
+		f = append(f, "tag")
+	}
+	if a != strings.TrimSpace(a) {
+		f = append(f, "outer-space")
+	}
+	for _, l := range strings.Split(a, "\n") {
+		if l != strings.TrimRight(l, " \t\r\u00a0") {
+			f = append(f, "line-end-space")
+			break
+		}
+	}
+	if len(f) == 0 {
+		return "plain"
+	}
+	return strings.Join(f, "+")
+}
+
+func c20AuthoredAnswers(cfg Config, r *Result, model *c20Model, keys []c20Keys, dir string) {
+	rng := rand.New(rand.NewSource(cfg.Rng.Int63())) // own generator: the cases before and after stay as they were
+	n := cfg.N(160, 2500)
+	opsPool := []string{"seal", "seal", "unseal", "unseal", "unseal-wrong", "unseal-nokey"}
+	for i := 0; i < n; i++ {
+		answer := c20AuthoredAnswer(rng)
+		ki := i % len(keys)
+		ops := []string{"seal", "unseal"} // the round trip itself, then a random tail
+		for j := rng.Intn(4); j > 0; j-- {
+			ops = append(ops, opsPool[rng.Intn(len(opsPool))])
+		}
+		r.Dist("authored-answer:" + c20AnswerFamily(answer))
+		if _, ok := c20FmOps(r, model, dir, fmt.Sprintf("au%d", i), "fmops-authored", answer, ops, keys[ki].KP, keys[(ki+1)%len(keys)].KP.Private); !ok {
+			return
+		}
+		if i%2 == 0 {
+			c20SealFile(r, dir, fmt.Sprintf("auf%d", i), answer, keys[ki].KP)
+		}
+	}
+}
+
+// c20SealFile: what `levy seal FILE` followed by `levy unseal FILE` do (cmd/levy: NewQuestionModel, Seal /
+// Unseal, WriteFormatted), through the file: the answer that comes back is the answer that was written.
+func c20SealFile(r *Result, dir, name, answer string, kp learn.KeyPair) {
+	content := c20Frontmatter("text", answer, "none") + c20SimpleBody
+	input := map[string]any{"kind": "sealfile", "markdown": content, "answer": answer, "public": kp.Public, "private": kp.Private}
+	file, err := c20WriteQuestion(dir, name, content)
+	if err != nil {
+		r.Violate(Violation{Kind: "correspondence", Key: "harness-io", Detail: err.Error()})
+		return
+	}
+	r.Count("sealfile/"+answer, true)
+	r.Dist("sealfile")
+	fail := func(key, detail string, impl any) {
+		r.Violate(Violation{Kind: "property", Key: key, Detail: detail, Input: input, Impl: impl})
+	}
+	m, err := learn.NewQuestionModel(file, learn.WithPrivateKey(kp.Private))
+	if err != nil || m.Frontmatter.Answer != answer {
+		r.Violate(Violation{Kind: "correspondence", Key: "harness-yaml-answer-differs", Detail: fmt.Sprintf("front matter did not parse to the intended answer: %v", err), Input: input})
+		return
+	}
+	if err := m.Seal(kp.Public); err != nil {
+		fail("sealfile-seal-fails", err.Error(), nil)
+		return
+	}
+	if err := m.WriteFormatted(); err != nil {
+		fail("sealfile-write-fails", err.Error(), nil)
+		return
+	}
+	m2, err := learn.NewQuestionModel(file, learn.WithPrivateKey(kp.Private))
+	if err != nil {
+		fail("sealfile-sealed-file-rejected", "the file written by seal does not load: "+err.Error(), nil)
+		return
+	}
+	if m2.Frontmatter.Answer != "" || m2.Frontmatter.SealedAnswer == "" {
+		fail("sealfile-sealed-file-state", "the file written by seal still has an answer or has no sealed-answer", nil)
+		return
+	}
+	if p, derr := c20Decrypt(kp.Private, m2.Frontmatter.SealedAnswer); derr != nil || p != answer {
+		fail("sealfile-sealed-value-differs", fmt.Sprintf("Decrypt(private, sealed-answer of the sealed file) is not the answer that was sealed (error: %v)", derr), p)
+		return
+	}
+	if err := m2.Unseal(); err != nil {
+		fail("sealfile-unseal-fails", err.Error(), nil)
+		return
+	}
+	if m2.Frontmatter.Answer != answer {
+		fail("sealfile-unseal-differs", "seal, write, load, unseal: the answer that comes back is not the answer that was sealed", m2.Frontmatter.Answer)
+		return
+	}
+	r.Validated++
 }
 
 // ---------- part C: verification ----------
@@ -1585,6 +1729,26 @@ func c20Replay(cfg Config, r *Result, model *c20Model, dir string) {
 		}
 	case "history":
 		c20ReplayHistory(r, dir, rec.Input)
+	case "fmops", "fmops-authored":
+		var ops []string
+		if l, ok := rec.Input["ops"].([]any); ok {
+			for _, x := range l {
+				o, _ := x.(string)
+				ops = append(ops, o)
+			}
+		}
+		answer, ok := rec.Input["answer"].(string)
+		if !ok { // recorded before the answer was part of the input: read it from the front matter
+			if f, err := c20WriteQuestion(dir, "replay-fm", str("markdown")); err == nil {
+				if m, err := learn.NewQuestionModel(f); err == nil {
+					answer = m.Frontmatter.Answer
+				}
+			}
+		}
+		want, _ := c20FmOps(r, model, dir, "replay", str("kind"), answer, ops, learn.KeyPair{Public: str("public"), Private: str("private")}, str("wrong_private"))
+		r.Note("replay %s: answer %q ops %v observed %s", str("kind"), answer, ops, want)
+	case "sealfile":
+		c20SealFile(r, dir, "replay", str("answer"), learn.KeyPair{Public: str("public"), Private: str("private")})
 	default:
 		r.Note("replay of kind %q is not supported; re-run the tier with the recorded seed", str("kind"))
 	}
@@ -1605,7 +1769,7 @@ func runC20(cfg Config, r *Result) {
 	}
 	defer os.RemoveAll(dir)
 	r.Rule = "A: Decrypt(Encrypt(t)) = t for random texts (0..20000 bytes, any Unicode, stray bytes) under 2 fresh key pairs (1024, 2048 bit); for 3 (quick) / 20 (thorough) sealed values single-byte corruptions of the envelope bytes and of the base64 text (thorough: every position, all 255 other values per envelope byte for all 20 values and per base64 character for the first 6, 8 bit flips per character for the rest; quick: a sample of about 55 envelope positions - header, both ends of the RSA part, the whole GCM tag, 24 random - and about 50 base64 positions, all 255 values at the sampled envelope positions of the first value, otherwise the 8 single-bit flips), every truncation of both, and the other private key: result must be rejection or the original text, and the rejection stage must be the one the model predicts under the ideal functionality; model unframe/frame on the real envelopes and on random garbage. " +
-		"B: random Seal/Unseal/Unseal-with-wrong-key sequences on the real front matter vs the model. " +
+		"B: random Seal/Unseal/Unseal-with-wrong-key sequences on the real front matter vs the model, over random texts and over answers as authors write them (1-5 lines of evy source / output with line-end comments, the authoring tag ` //levy:blank` and near misses of it, white space and CR at line ends and around the text); after every Seal the sealed value must decrypt to the answer; for half of the authored answers also seal - WriteFormatted - load - unseal through the file. " +
 		"C: every non-empty subset of letters a..(one beyond the last choice) x every equal/different assignment for 2..5 choices (multiple choice), every single letter of those and z (single choice), in four styles (question evy / choices inline code; question text / choices evy blocks; question evy / choices text blocks; question text / choices = the 2..6 files of a generated txtar archive linked from one list item, exhaustive up to 3 (quick) / 5 (thorough) files, sampled above; plus parse-error / no-parse-error verification over such archives), through markdown files whose outputs are produced by running evy (a choice of the different class is with probability 1/2 a near miss: output differing from the question's only by trailing newlines - printf, an extra bare print, a string ending in \\n -, by a leading/trailing blank or by case; choice outputs are compared exactly), in plain and sealed / wrong key / no key / ignored modes, with the verification field absent, spelled out as match (every plain case is run in both spellings), none, parse-error, no-parse-error, and 13 undocumented values that must be rejected at load time; text answers with white-space variants. D: histories - 40 (quick) / 400 (thorough) exercise directories of 3-4 program files (print a word, draw a circle; some print the same and draw differently, some the reverse) with 2-5 questions over the same files asking for text output or for the picture (evy:text / evy:svg / evy:source links, result type inferred), right and wrong marks, verified in one process in every order (at most 6 / 30 orders per directory), some questions twice: every verdict against the oracle, the model, and - for a sample and for every disagreement - the verdict of the same file verified alone in a fresh process. " +
 		"non-trivial = non-empty text (A), >= 2 operations (B), every question (C); distinct = distinct canonical case"
 	if cfg.Replay != "" {
